@@ -134,6 +134,26 @@ def stub_drift():
     return bad
 
 
+def stub_conformance():
+    """Run one fixed rtr_start/rtr_stop sequence through the REAL functions (real thread, dummy transport
+    that cannot be opened) and through the link-time stubs; both must observe the same states, thread
+    flags, last_update flags, result codes and callbacks.  Returns None or a description of the mismatch."""
+    exe = vlib.build_harness("mgr_stubcheck", os.path.join(vlib.VERIF, "harness", "mgr_events.c"), san="asan",
+                             extra=("-DC15_STUBCHECK",))
+    try:
+        rc, so, se = _run([exe], "", env=vlib.san_env(), timeout=120)
+    except subprocess.TimeoutExpired:
+        return {"what": "stub conformance run timed out"}
+    lines = [l for l in so.split("\n") if l.strip()]
+    if rc != 0 or "real:" not in lines or "stub:" not in lines:
+        return {"what": "stub conformance run failed", "exit": rc, "stdout": so[-1500:], "stderr": se[-1500:]}
+    i, j = lines.index("real:"), lines.index("stub:")
+    real, stub = lines[i + 1:j], lines[j + 1:]
+    if real != stub or len(real) < 10:
+        return {"what": "the stubs for rtr_start/rtr_stop do not behave like rtr/rtr.c", "real": real, "stub": stub}
+    return None
+
+
 # ----------------------------------------------------------------------------- running scripts
 class Block:
     __slots__ = ("op", "lines")
@@ -331,6 +351,9 @@ def spec_check(ops, blocks, crash):
                 viol("group-count", i, "config->len=%d, %d groups presented" % (cfg[0], len(cfg[1])))
             # ---- a group is never left ESTABLISHED with a stopped socket
             for g in cfg[1]:
+                was = before.get(g["pref"])
+                if was is not None and was["status"] == "ESTABLISHED" and any(th == 0 for st, lu, th in was["socks"]):
+                    continue        # reported at the operation that produced it
                 if g["status"] == "ESTABLISHED" and any(th == 0 for st, lu, th in g["socks"]):
                     viol("established-running", i, "group %d is ESTABLISHED with sockets %r" % (g["pref"], g["socks"]),
                          key="stale-established-after-stop" if w[0] == "stop" else "established-running:" + w[0])
@@ -743,6 +766,7 @@ def run(chk):
     model = build_model()
     runner = Runner(impl, model)
     drift = stub_drift()
+    mismatch = stub_conformance()
 
     scripts = []
     for name, ops in load_corpus():
@@ -832,6 +856,9 @@ def run(chk):
                        "the link-time stubs in harness/mgr_events.c and the model's stop_one / start_sock restate them and must be "
                        "re-read against the new text", "functions": drift}, key="stub-drift", no_input=True, tag="%s-stubs" % vlib.seed())
 
+    if mismatch:
+        chk.violation({"kind": "stub-mismatch", "detail": mismatch}, key="stub-mismatch", no_input=True, tag="%s-stubcheck" % vlib.seed())
+
     st = runner.stats
     chk.cov.update({
         "evaluations": st["ops"], "distinct_nontrivial": len(st["pairs"]),
@@ -850,13 +877,18 @@ def run(chk):
                            "add/remove of preferences 0..4 with 1..2 sockets, and per socket lu/ESTABLISHED/ERROR_TRANSPORT",
         "model_variant": variant, "variants_tried": tried,
         "tie": "(b) differential execution of the extracted model against the real rtr_mgr.c; rtr_start/rtr_stop stubbed at "
-               "link time, text of the stubbed functions compared with a recorded normal form (stub drift: %s)" % ("none" if not drift else "YES"),
+               "link time; the stubs are (1) run side by side with the real rtr_start/rtr_stop (real thread) on a fixed 10-step "
+               "sequence (result: %s) and (2) the text of the stubbed functions is compared with a recorded normal form (drift: %s)"
+               % ("identical" if not mismatch else "MISMATCH", "none" if not drift else "YES"),
     })
     full = variant == "fixed"
     chk.notes.append("property theorem for this tree: " + ("C15_full_when_repaired (every clause)" if full else
                      "all clauses proved for every variant except 'rejection is an error return' and 'never ESTABLISHED with a stopped "
                      "socket', which hold only with the corresponding repair; C15_refuted / *_refuted give the witnesses for the shipped code"))
     chk.assumptions += [
+        "reading of 'reported ESTABLISHED only when synchronised': (1) the report by which a group BECOMES ESTABLISHED requires every "
+        "socket synced; (2) no group is left ESTABLISHED with a stopped socket.  Re-announcements of an unchanged ESTABLISHED status "
+        "(default arm of rtr_mgr_cb, SHUTDOWN handler) are by design and not counted",
         "callbacks of different sockets are serialised (the property quantifies over histories, not schedules)",
         "only the FSM thread of a started socket (thread_id != 0) changes that socket's state or last_update, and it never reports "
         "RTR_SHUTDOWN or RTR_CLOSED itself; state changes and last_update changes are otherwise arbitrary (over-approximates rtr_fsm_start)",
@@ -866,8 +898,8 @@ def run(chk):
     ]
     chk.trusted += [
         "hand-written model coq/theories/Mgr/MgrModel.v of rtr_mgr.c (tied by the differential run)",
-        "link-time stubs for rtr_start / rtr_stop in harness/mgr_events.c (restating rtr/rtr.c; guarded by the recorded normal form of "
-        "rtr_start, rtr_stop, rtr_change_socket_state and the prologue of rtr_fsm_start)",
+        "link-time stubs for rtr_start / rtr_stop in harness/mgr_events.c (restating rtr/rtr.c; guarded by a side-by-side run against the "
+        "real functions and by the recorded normal form of rtr_start, rtr_stop, rtr_change_socket_state and the prologue of rtr_fsm_start)",
         "tommyds list and tommy_list_sort (modelled as a Coq list and insertion sort; exercised by the run)",
         "ocaml/c15_driver.ml, python Spec predicates in tools/props/C15.py",
     ]
